@@ -92,7 +92,12 @@ def build(name, extra_src=None, quiet=True):
         # drop stale builds of the same configuration (disk hygiene)
         for e in os.listdir(BUILD):
             if e.startswith(name + "-") and e != os.path.basename(d) and e[len(name) + 1:].isalnum() and len(e) == len(name) + 17:
-                shutil.rmtree(os.path.join(BUILD, e), ignore_errors=True)
+                try:
+                    old = time.time() - os.path.getmtime(os.path.join(BUILD, e)) > 3600
+                except OSError:
+                    old = False
+                if old:  # never remove a directory another process may still be compiling into
+                    shutil.rmtree(os.path.join(BUILD, e), ignore_errors=True)
         cmd = [cc] + COMMON + flags + ["-I", REPO, "-I", os.path.join(REPO, "src"), "-I", SHIM_DIR, "-I", os.path.join(REPO, "contrib"), "-I", os.path.join(REPO, "include"),
                                         os.path.join(SHIM_DIR, "shim.c"), "-o", so + ".tmp"]
         t0 = time.time()
